@@ -986,7 +986,7 @@ func TestC42(t *testing.T) {
 	depth := depthOf["dir"]
 	kinds := []string{"macro", "pop", "dir", "file", "gate"}
 	deadline := scaledDeadline(55*time.Second, 9*time.Minute)
-	r.Rule(fmt.Sprintf("every sequence of <= %d harness events (scan, scanfull, trans[create/delete t after staging], poll, cancel, adv30ms, adv1s, extedit[g: create/modify/delete], extrev[exact external reversal of the last transition]) that respects the Endpoint contract (one call outstanding, Transition only after a Scan), for t a directory (depth %d), t a file (depth %d), and a two-change transition (directories t and t2) held by a hook-layer gate between its two changes until a release event so that poll scans land inside it (depth %d), plus a controller-shaped variant whose events are whole habits (sync = Scan then Transition, await = Poll then 30 ms; depth %d, so it reaches much longer raw histories); histories are visited level by level (all variants of length d before any of length d+1); each history is a fresh bubble replayed from scratch; non-trivial = a Scan was judged after a disk-changing transition, or an external modification created a notification obligation; distinct by (kind, event list)", depth, depthOf["dir"], depthOf["file"], depthOf["gate"], depthOf["macro"], depthOf["pop"]))
+	r.Rule(fmt.Sprintf("every sequence of <= %d harness events (scan, scanfull, trans[create/delete t after staging], poll, cancel, adv30ms, adv1s, extedit[g: create/modify/delete], extrev[exact external reversal of the last transition]) that respects the Endpoint contract (one call outstanding, Transition only after a Scan), for t a directory (depth %d), t a file (depth %d), and a two-change transition (directories t and t2) held by a hook-layer gate between its two changes until a release event so that poll scans land inside it (depth %d), plus a controller-shaped variant whose events are whole habits (sync = Scan then Transition, await = Poll then 30 ms; depth %d, so it reaches much longer raw histories), and a variant whose target directory is populated (x, y) and can receive an unknown child t/z externally (event extchild) between Scan and Transition, so that its removal succeeds only partly (depth %d); histories are visited level by level (all variants of length d before any of length d+1); each history is a fresh bubble replayed from scratch; non-trivial = a Scan was judged after a disk-changing transition, or an external modification created a notification obligation; distinct by (kind, event list)", depth, depthOf["dir"], depthOf["file"], depthOf["gate"], depthOf["macro"], depthOf["pop"]))
 	r.Assume("real local endpoint, force-poll, 1 s interval, accelerated scanning, probe mode assume, staging in the data directory",
 		"granularity: harness events happen only at quiescence (synctest.Wait); interleavings inside one quiescence step and Go select choice are not owned (divergent_replays counts observed differences)",
 		"second sentence judged on what the consumer can see: while the disk differs from what the consumer was last told (Scan result + transition results) and no notification was delivered since it was told, a Poll must return within interval + 2 x coalescing window of virtual time from the last change of disk or belief; modifications undone before a poll could sample them, or already reported by a Scan, owe nothing",
